@@ -218,6 +218,9 @@ class Lower:
             progress = False
             for it in list(pending_inst):
                 if elems_ready(it[2:]):
+                    if it[0] == 'DECL_OPT':
+                        res.append('#ifndef VAL_EQ_%s\n#define VAL_EQ_%s(a, b) %s\n#endif' % (it[1], it[1],
+                                   '((a) == (b))' if not it[2].startswith('struct ') else '0 /* record equality not needed */'))
                     if it[0] in ('DECL_SEQ', 'DECL_BT', 'DECL_UMAP'):
                         res.append('#ifndef SEQ_INV_%s\n#define SEQ_INV_%s(p) 1\n#endif' % (it[1], it[1]))
                     res.append('%s(%s)' % (it[0], ', '.join(it[1:])))
